@@ -39,6 +39,10 @@ CLAIMS.update({
  'C16': dict(text='Coq theorems with the increment modelled modulo 2^64 and the guard (compared value, operator, constant, action) and both abort definitions translated from the source each run: for EVERY starting count below 2^64, a clone at or below isize::MAX succeeds with count+1 and no wrap, above it aborts and produces no handle; no sequence of clones ever brings the count back to a smaller value; abort is process abort (std) or a panic raised while a Drop-panicking guard is live (no_std); every clone path of every handle kind is the guarded increment (funnel theorems on the handle machine + closed world of atomic sites). Tied dynamically by child processes: 13 clone entry points x 10 boundary counts preset through the hook-reported counter address, in std and no_std builds, observing SIGABRT with no output after the marker or count+1.',
              note='Trusted: Coq kernel; tools/extract.py; "panic while panicking aborts" (Rust runtime; exercised by the no_std children); the handle-machine funnel lemmas are tied to the code by the mech stream of C01/C02.'),
 })
+CLAIMS.update({
+ 'C14': dict(text='Coq theorems for ARBITRARY payload types (records of arbitrary functions, no law assumed: NaN-like and deliberately unlawful payloads included): with the 28 comparison/hash/format method bodies classified by the translator on every run, Arc answers ==, !=, <, <=, >, >=, partial_cmp, cmp, Hash, Debug, Display, Borrow/AsRef as the payload does on the dereferenced values, differing only for two handles to one allocation whose value is unequal to itself; OffsetArc and ArcBorrow likewise; ArcUnion compares same variants by value and different variants unequal, Debug under the variant name; ThinArc is the fat Arc on the header-slice payload, which orders as header then slice (recorded length as last tie-break, never deciding for a ThinArc); for lawful header/element types the header-slice payload is mutually consistent (!= vs ==, == vs partial_cmp Equal, the four operators vs partial_cmp, cmp vs partial_cmp, equal => equal hashes) on every publicly constructible value. Two genuine defects found and repaired by fix: commits in /repo (F1 ArcBorrow/ArcUnion by address, F2 equality vs ordering of HeaderSlice<HeaderWithLength>) with a refutation theorem kept for F2. Dynamic tie: cmp stream, exhaustive over the small domain for three payload classes (total, float with NaN, unlawful) through every handle kind incl. HashMap/BTreeMap lookups.',
+             note='Trusted: Coq kernel; tools/extract.py (classification of impl bodies); the expansion of #[derive] and core\'s slice/tuple impls as modelled in Cmp.v/CmpCases.v (validated by the cmp stream, e.g. slice == walks elements with !=).'),
+})
 ORDER = ['C%02d' % i for i in range(1, 18)]
 NA_REASON = 'check under construction; not claimed yet (see DESIGN.md section 6 for the planned theorem)'
 
